@@ -15,6 +15,18 @@ GenByte(k, seed, i) ==      \* i is 0-based
    ELSE IF k = "bit" THEN (IF i = seed \div 8 THEN 2^(7 - (seed % 8)) ELSE 0)
    ELSE IF k = "mix" THEN (((MixJ(seed, i) * MixJ(seed, i)) \div 7) + (MixJ(seed, i) * 3) + (i \div 46337) + (seed \div 46337)) % 256
    ELSE Assert(FALSE, <<"unknown generator", k>>)
+\* the same byte addressed as (64-byte block index, offset in the block): byte 64 blk + o, for messages beyond 2^31 bytes (blk < 2^27)
+MixJB(seed, blk, o) == (((blk % 46337) * 64) + o + seed) % 46337
+DivB(blk, o) == ((blk \div 46337) * 64) + ((((blk % 46337) * 64) + o) \div 46337)            \* (64 blk + o) div 46337
+GenByteAt(k, seed, blk, o) ==
+   IF k = "zero" THEN 0
+   ELSE IF k = "ff" THEN 255
+   ELSE IF k = "inc" THEN ((seed % 256) + ((blk % 4) * 64) + o) % 256
+   ELSE IF k = "bit" THEN (IF blk = (seed \div 8) \div 64 /\ o = (seed \div 8) % 64 THEN 2^(7 - (seed % 8)) ELSE 0)
+   ELSE IF k = "mix" THEN (((MixJB(seed, blk, o) * MixJB(seed, blk, o)) \div 7) + (MixJB(seed, blk, o) * 3) + DivB(blk, o) + (seed \div 46337)) % 256
+   ELSE Assert(FALSE, <<"unknown generator", k>>)
+ASSUME \A k \in {"zero", "ff", "inc", "bit", "mix"}, seed \in {0, 5, 777, 46336, 46337, 1048575}, blk \in {0, 1, 2, 723, 724, 725, 1447, 1448, 16777215}, o \in {0, 1, 62, 63} :
+          GenByteAt(k, seed, blk, o) = GenByte(k, seed, 64 * blk + o)
 GenMsg(g, len) == TLCEval([i \in 1..len |-> GenByte(g.k, g.seed, i - 1)])
 \* message of an event: explicit bytes (kind "raw") or generated
 MsgOf(e) == IF e.gen.k = "raw" THEN e.raw ELSE GenMsg(e.gen, e.len)
